@@ -198,6 +198,8 @@ class Ctx(object):
         @self.settings(max_examples, shrink=True)
         @given(strategy)
         def drive(x):
+            if time.time() - t0 > budget:
+                return                      # out of time: every further candidate "passes", the shrinker stops by itself
             case = to_case(x) if to_case else x
             v = j(case)
             for s, m in v.fails:
@@ -205,6 +207,9 @@ class Ctx(object):
                     last["case"], last["msg"] = case, m
                     raise Found()
 
+        if "stall" in sig.split(":"):
+            return                          # every failing candidate costs a whole watchdog period: keep the smallest case seen
+        budget = 60.0 if self.tier == "quick" else 240.0
         t0 = time.time()
         try:
             drive()
